@@ -149,7 +149,7 @@ func (c *control) readDir() {
 			}
 		case '#':
 			params = append(params, len(c.args)-c.argPos)
-		case 'v':
+		case 'v', 'V':
 			var p any
 			if 0 <= c.argPos {
 				p = c.args[c.argPos]
